@@ -17,6 +17,8 @@ from . import matching as MM
 from .matching import PRE, TEXT, PAT, RE_FLAGS
 
 DUAL = {"has_match": "search", "is_exact_match": "fullmatch", "__iterate_match_objects": "finditer"}
+# entry points that decide the same question: a match exists <=> finditer yields one
+ALSO_OK = {"has_match": {"finditer"}}
 WRAPPERS = ["matches", "matches_and_pos", "matches_with_context", "captures", "captures_and_pos",
             "named_captures", "named_captures_and_pos"]
 
@@ -102,7 +104,7 @@ def run(ctx, model):
                     ctx.violation("R-DUAL", f.relpath, f.short, "<arm selection>",
                                   f"{meth}: the {'compiled' if compiled else 'uncompiled'} state answers through the "
                                   f"{'module' if compiled else 'cached'} path", f.node.lineno, inp=inp)
-                if c["entry"] != entry:
+                if c["entry"] != entry and c["entry"] not in ALSO_OK.get(meth, ()):
                     ctx.violation("R-DUAL", f.relpath, f.short, f"{c['via']}.{c['entry']}",
                                   f"{meth} must use re's `{entry}`, the {want_via} arm calls `{c['entry']}`",
                                   f.node.lineno, inp=inp)
@@ -125,7 +127,10 @@ def run(ctx, model):
                 # result passthrough
                 if meth == "__iterate_match_objects":
                     want = MM.std_matches(TEXT) if has else []
-                    got = list(v) if isinstance(v, list) else None
+                    try:
+                        got = list(v)
+                    except TypeError:
+                        got = None
                     if got is None or [(m.s, m.e) for m in got] != [(m.s, m.e) for m in want]:
                         ctx.violation("R-DUAL", f.relpath, f.short, "<result>", f"{meth} does not return re's iterator unchanged",
                                       f.node.lineno, inp=inp)
